@@ -234,6 +234,20 @@ def deleteHostE (cfg : Cfg) (e : EL) (name : Str) : Int × EL :=
   | (some n, e1) => (1, deleteNthE cfg e1 n)
   | (none, e1) => (0, e1)
 
+/-- D1 repaired: `while (hostlist_delete_host(hl, hostname)) n++;` — every occurrence goes -/
+def deleteAllE (cfg : Cfg) : Nat → EL → Str → Int × EL
+  | 0, e, _ => (0, e)
+  | f + 1, e, x =>
+    match deleteHostE cfg e x with
+    | (1, e') => let (k, e'') := deleteAllE cfg f e' x; (k + 1, e'')
+    | (_, e') => (0, e')
+
+/-- DEFECT D1: `hostlist_delete` calls `hostlist_delete_host` ONCE per listed name, and that erases
+    the first occurrence only: a host named twice by the target list survives its exclusion
+    (`foo[1-3],foo[2-4]` minus `foo[2-3]` keeps foo2, foo3).  Repaired: loop until not found. -/
+def deleteNameE (cfg : Cfg) (e : EL) (x : Str) : Int × EL :=
+  if cfg.fixDeleteAll then deleteAllE cfg (e.nhosts.toNat + 1) e x else deleteHostE cfg e x
+
 /-- the names `hostlist_pop` hands out until NULL (on the temporary list of `hostlist_delete`) -/
 def popAll (cfg : Cfg) : Nat → EL → EM (List Str)
   | 0, _ => .ok []
@@ -258,7 +272,7 @@ def deleteE (cfg : Cfg) (e : EL) (s : Str) : EM (Int × Fatal × EL) :=
     | .error w => .error w
     | .ok names =>
       let (n, e') := names.foldl (fun (acc : Int × EL) x =>
-        match deleteHostE cfg acc.2 x with
+        match deleteNameE cfg acc.2 x with
         | (k, e2) => (acc.1 + k, e2)) (0, e)
       .ok (n, .none, e')
 
